@@ -123,3 +123,106 @@ Example C07_hypotheses_satisfiable : exists root c dims p steps ms xs ys,
   in_range (c_size c) xs /\ in_range (c_size c) ys /\ length xs = dims /\
   (0 < length (p_scale p))%nat /\ nth 0 (p_bias p) 0 == bias_init1 (c_min c) (c_max c).
 Proof. exact hypotheses_witness. Qed.
+
+(* ------------------------------------------------------------------ *)
+(* Histories WITH parameter updates ("signs that change between updates",
+   "all orders in which kernel and scale are updated/constrained").
+   Vocabulary (Proofs/KFLHistory.v):
+     event               EStep st (a constraint application) | ESetScale s |
+                         ESetKernel k | ESetBias b (variable.assign of an
+                         ARBITRARY new value: any signs, zeros included)
+     run_events          the parameters after a list of events
+     events_ok           every assigned value has the variable's shape
+     km_fresh es         a kernel constraint (K or F) occurs after the last
+                         update of the kernel and of the scale
+     kb_fresh es         a kernel constraint occurs after the last KERNEL update
+     s_fresh es          a scale constraint (S or F) occurs after the last SCALE
+                         update *)
+From TFL Require Import Proofs.KFLHistory.
+
+(* Monotonicity for every history of updates and constraint applications in
+   which the kernel constraint was applied after the last update (whatever the
+   earlier scale signs were, however often they changed), for in-range points,
+   and for all points when clip_inputs is on; with or without bounds. *)
+Theorem C07_monotone_history : forall root c dims p es ms u xs ys,
+  root_ok root -> cfg_ok c dims -> shaped c dims p -> events_ok root c dims es p ->
+  km_fresh es = true ->
+  canon_monos (c_monos c) = Some ms ->
+  coords_le ms xs ys ->
+  c_clip c = true \/ (in_range (c_size c) xs /\ in_range (c_size c) ys) ->
+  unit_out c (run_events root c es p) u xs <= unit_out c (run_events root c es p) u ys.
+Proof. intros root c dims p es ms u xs ys H. exact (kfl_monotone_history root H c dims p es ms u xs ys). Qed.
+Print Assumptions C07_monotone_history.
+
+(* Bounds for every history in which the kernel constraint was applied after the
+   last kernel update and the scale constraint after the last scale update: the
+   scale may change sign AFTER the kernel constraint (the bound part of the kernel
+   constraint does not read the scale).  No monotonicity hypothesis: holds
+   whether or not any monotonicity is configured.  The bias is required to be
+   at its fixed value at evaluation time. *)
+Theorem C07_bounded_history : forall root c dims p es u xs,
+  root_ok root -> cfg_ok c dims -> shaped c dims p -> events_ok root c dims es p ->
+  kb_fresh es = true -> s_fresh es = true ->
+  (u < length (p_scale (run_events root c es p)))%nat ->
+  nth u (p_bias (run_events root c es p)) 0 == bias_init1 (c_min c) (c_max c) ->
+  length xs = dims -> c_clip c = true \/ in_range (c_size c) xs ->
+  (forall lo, c_min c = Some lo -> lo <= unit_out c (run_events root c es p) u xs) /\
+  (forall hi, c_max c = Some hi -> unit_out c (run_events root c es p) u xs <= hi).
+Proof. intros root c dims p es u xs H. exact (kfl_bounded_history root H c dims p es u xs). Qed.
+Print Assumptions C07_bounded_history.
+
+(* A history of constraint applications only is the special case of C07_monotone
+   / C07_bounded: same parameters, same flags. *)
+Theorem C07_history_of_steps : forall root c steps p,
+  run_events root c (map EStep steps) p = run root c steps p /\
+  km_fresh (map EStep steps) = hasK steps /\ kb_fresh (map EStep steps) = hasK steps /\
+  s_fresh (map EStep steps) = hasS steps.
+Proof. intros root c steps p. split; [apply run_events_steps|].
+  unfold km_fresh, kb_fresh, s_fresh. rewrite !kflag_steps, sflag_steps. auto. Qed.
+Print Assumptions C07_history_of_steps.
+
+(* The constraints never move the bias; only a bias update does. *)
+Theorem C07_bias_untouched_by_constraints : forall root c es p,
+  no_bias_update es = true -> p_bias (run_events root c es p) = p_bias p.
+Proof. intros root c es p. exact (run_events_bias root c es p). Qed.
+Print Assumptions C07_bias_untouched_by_constraints.
+
+(* THE BOUNDARY OF THE CLAIM.  The interleaving
+     kernel.constraint (against the old scale signs) ; scale update that flips a
+     sign ; scale.constraint
+   (the per-variable order of a Keras optimizer step in which the scale changes
+   sign) satisfies kb_fresh and s_fresh - the output is within the bounds - but
+   not km_fresh, and the output is DECREASING in an input declared increasing:
+   lattice_sizes=2, monotonicities=[1], bounds [0,1], kernel (0,1), scale +1 -> -1:
+   f(0) = 1/2 > f(1) = 0.  "Once the constraints have been applied" therefore has
+   to be read as: the kernel constraint was applied after the last sign change
+   (C07_monotone_history); LIMITS item 1 of harness/props/c07.py. *)
+Theorem C07_monotone_after_stale_kernel_constraint_refuted : exists root c dims p es ms u xs ys,
+  root_ok root /\ cfg_ok c dims /\ shaped c dims p /\ events_ok root c dims es p /\
+  kb_fresh es = true /\ s_fresh es = true /\ km_fresh es = false /\
+  canon_monos (c_monos c) = Some ms /\ coords_le ms xs ys /\
+  in_range (c_size c) xs /\ in_range (c_size c) ys /\
+  unit_out c (run_events root c es p) u ys < unit_out c (run_events root c es p) u xs.
+Proof. exact stale_kernel_constraint_witness. Qed.
+Print Assumptions C07_monotone_after_stale_kernel_constraint_refuted.
+
+(* The fixed-bias hypothesis of C07_bounded / C07_bounded_history is needed:
+   assigning the (non-trainable) bias of a bounded layer moves the output out of
+   the bounds. *)
+Theorem C07_bounded_with_moved_bias_refuted : exists root c dims p es u xs hi,
+  root_ok root /\ cfg_ok c dims /\ shaped c dims p /\ events_ok root c dims es p /\
+  kb_fresh es = true /\ s_fresh es = true /\ in_range (c_size c) xs /\ length xs = dims /\
+  c_max c = Some hi /\ hi < unit_out c (run_events root c es p) u xs.
+Proof. exact moved_bias_witness. Qed.
+Print Assumptions C07_bounded_with_moved_bias_refuted.
+
+(* The hypotheses of the two history theorems are jointly satisfiable by a
+   history with updates of kernel, scale (sign flipped) and bias. *)
+Example C07_history_hypotheses_satisfiable : exists root c dims p es ms xs ys,
+  root_ok root /\ cfg_ok c dims /\ shaped c dims p /\ events_ok root c dims es p /\
+  km_fresh es = true /\ kb_fresh es = true /\ s_fresh es = true /\
+  canon_monos (c_monos c) = Some ms /\ coords_le ms xs ys /\
+  in_range (c_size c) xs /\ in_range (c_size c) ys /\ length xs = dims /\
+  (0 < length (p_scale (run_events root c es p)))%nat /\
+  nth 0 (p_bias (run_events root c es p)) 0 == bias_init1 (c_min c) (c_max c).
+Proof. exact history_hypotheses_witness. Qed.
